@@ -232,8 +232,7 @@ theorem trimLast_valid (T : Tables) (maxLen : Nat) (out : List UInt8) (prev : Bo
       simp only [List.append_nil, validL_nil, Bool.not_false] at this
       have hl := h.len
       simp only [List.length_append, List.length_cons, List.length_nil] at hl
-      simp only [Bool.true_and, List.isEmpty_append, List.isEmpty_cons, Bool.and_false, Bool.not_false, ↓reduceIte,
-        List.dropLast_concat, this, Bool.or_true, Bool.and_true, decide_eq_true_eq]
+      simp [this]
       omega
 
 /-- force: the output is valid (in particular at most maxLen bytes) -/
@@ -272,6 +271,7 @@ theorem slow_id (T : Tables) (hT : T.Sane) (force : Bool) (maxLen : Nat) : ∀ (
       rw [validL_cons] at hv
       simp only [List.length_cons] at hf hl
       have hw := decode_width c rest
+      simp only [List.length_cons] at hw
       simp only [slowLoop]
       by_cases h1 : bytePrint c = true
       · simp only [h1, ↓reduceIte] at hv
@@ -279,7 +279,8 @@ theorem slow_id (T : Tables) (hT : T.Sane) (force : Bool) (maxLen : Nat) : ∀ (
           simpa [bytePrint] using h1
         have hd := decode_ascii c rest (by omega)
         have hb : badRune (c.toNat, 1) = false := by
-          simp only [badRune, runeError, Bool.and_eq_false_iff, decide_eq_false_iff_not]; left; omega
+          have : c.toNat ≠ 65533 := by omega
+          simp [badRune, runeError, this]
         have hsa := hT.space_ascii c.toNat hcp.1 hcp.2
         have hpa := hT.print_ascii c.toNat (by omega)
         have henc : encodeRune c.toNat = [c] := by
@@ -337,5 +338,163 @@ theorem slow_id (T : Tables) (hT : T.Sane) (force : Bool) (maxLen : Nat) : ∀ (
                 (by simp only [List.length_append, htl, hdl]; omega)]
               rw [List.append_assoc, List.take_append_drop]
             · simp [h3] at hv
+
+/-- well-formed UTF-8: DecodeRune never answers (RuneError, ≤1) while walking the string (= utf8.Valid) -/
+def utf8Ok : Nat → List UInt8 → Bool
+  | 0, _ => true
+  | _ + 1, [] => true
+  | f + 1, c :: rest =>
+    if badRune (decodeRune (c :: rest)) then false else utf8Ok f ((c :: rest).drop (decodeRune (c :: rest)).2)
+
+def utf8Valid (s : List UInt8) : Bool := utf8Ok (s.length + 1) s
+
+theorem slow_true_some (T : Tables) (maxLen : Nat) : ∀ (fuel : Nat) (s out : List UInt8) (prev : Bool),
+    ∃ o, slowLoop T true maxLen fuel s out prev = some o := by
+  intro fuel
+  induction fuel with
+  | zero => intro s out prev; exact ⟨_, rfl⟩
+  | succ f ih =>
+    intro s out prev
+    cases s with
+    | nil => exact ⟨_, rfl⟩
+    | cons c rest =>
+      simp only [slowLoop, Bool.not_true, Bool.and_false, Bool.false_eq_true, ↓reduceIte]
+      cases classify T (decodeRune (c :: rest)).1 prev with
+      | none => exact ih _ _ _
+      | some p =>
+        obtain ⟨r, sp⟩ := p
+        simp only
+        split
+        · exact ⟨_, rfl⟩
+        · exact ih _ _ _
+
+/-- whenever the strict loop succeeds, the forcing loop does exactly the same -/
+theorem slow_strict_eq_force (T : Tables) (maxLen : Nat) : ∀ (fuel : Nat) (s out : List UInt8) (prev : Bool) o,
+    slowLoop T false maxLen fuel s out prev = some o → slowLoop T true maxLen fuel s out prev = some o := by
+  intro fuel
+  induction fuel with
+  | zero => intro s out prev o h; exact h
+  | succ f ih =>
+    intro s out prev o h
+    cases s with
+    | nil => exact h
+    | cons c rest =>
+      simp only [slowLoop, Bool.not_false, Bool.and_true, Bool.not_true, Bool.and_false, Bool.false_eq_true,
+        ↓reduceIte] at h ⊢
+      by_cases hb : badRune (decodeRune (c :: rest)) = true
+      · simp [hb] at h
+      · simp only [hb, Bool.false_eq_true, ↓reduceIte] at h
+        cases hc : classify T (decodeRune (c :: rest)).1 prev with
+        | none => simp only [hc] at h ⊢; exact ih _ _ _ _ h
+        | some p =>
+          obtain ⟨r, sp⟩ := p
+          simp only [hc] at h ⊢
+          split
+          · rename_i hl; simp only [hl, ↓reduceIte] at h; exact h
+          · rename_i hl; simp only [hl, ↓reduceIte] at h; exact ih _ _ _ _ h
+
+/-- on well-formed UTF-8 the strict loop does not fail -/
+theorem slow_strict_some (T : Tables) (maxLen : Nat) : ∀ (fuel : Nat) (s out : List UInt8) (prev : Bool),
+    utf8Ok fuel s = true → ∃ o, slowLoop T false maxLen fuel s out prev = some o := by
+  intro fuel
+  induction fuel with
+  | zero => intro s out prev _; exact ⟨_, rfl⟩
+  | succ f ih =>
+    intro s out prev hu
+    cases s with
+    | nil => exact ⟨_, rfl⟩
+    | cons c rest =>
+      simp only [utf8Ok] at hu
+      by_cases hb : badRune (decodeRune (c :: rest)) = true
+      · simp [hb] at hu
+      · simp only [hb, Bool.false_eq_true, ↓reduceIte] at hu
+        simp only [slowLoop, Bool.not_false, Bool.and_true, hb, Bool.false_eq_true, ↓reduceIte]
+        cases classify T (decodeRune (c :: rest)).1 prev with
+        | none => exact ih _ _ _ hu
+        | some p =>
+          obtain ⟨r, sp⟩ := p
+          simp only
+          split
+          · exact ⟨_, rfl⟩
+          · exact ih _ _ _ hu
+
+theorem appendValid_force (T : Tables) (maxLen : Nat) (dst s : List UInt8) :
+    appendValid T maxLen true dst s = some (dst ++ force T maxLen s) := by
+  unfold force appendValid
+  by_cases h0 : s.isEmpty = true
+  · simp [h0]
+  · simp only [h0, Bool.false_eq_true, ↓reduceIte, List.nil_append]
+    by_cases h1 : (decide (s.length ≤ maxLen) && fastOk s) = true
+    · simp [h1]
+    · simp only [h1, Bool.false_eq_true, ↓reduceIte]
+      obtain ⟨o, ho⟩ := slow_true_some T maxLen (s.length + 1) s [] true
+      simp [ho]
+
+theorem strict_some_eq (T : Tables) (maxLen : Nat) (dst s v : List UInt8) (h : strict T maxLen dst s = some v) :
+    v = dst ++ force T maxLen s := by
+  have hf := appendValid_force T maxLen dst s
+  unfold strict at h
+  unfold appendValid at h hf
+  by_cases h0 : s.isEmpty = true
+  · simp only [h0, ↓reduceIte, Option.some.injEq] at h hf; rw [← h]; exact hf
+  · simp only [h0, Bool.false_eq_true, ↓reduceIte] at h hf
+    by_cases h1 : (decide (s.length ≤ maxLen) && fastOk s) = true
+    · simp only [h1, ↓reduceIte, Option.some.injEq] at h hf; rw [← h]; exact hf
+    · simp only [h1, Bool.false_eq_true, ↓reduceIte, Option.map_eq_some_iff] at h hf
+      obtain ⟨o, ho, rfl⟩ := h
+      obtain ⟨o', ho', he⟩ := hf
+      have := slow_strict_eq_force T maxLen _ _ _ _ _ ho
+      rw [this] at ho'
+      cases ho'
+      exact he
+
+theorem strict_of_utf8 (T : Tables) (maxLen : Nat) (dst s : List UInt8) (hu : utf8Valid s = true) :
+    strict T maxLen dst s = some (dst ++ force T maxLen s) := by
+  have : ∃ v, strict T maxLen dst s = some v := by
+    unfold strict appendValid
+    by_cases h0 : s.isEmpty = true
+    · simp [h0]
+    · simp only [h0, Bool.false_eq_true, ↓reduceIte]
+      by_cases h1 : (decide (s.length ≤ maxLen) && fastOk s) = true
+      · simp [h1]
+      · simp only [h1, Bool.false_eq_true, ↓reduceIte]
+        obtain ⟨o, ho⟩ := slow_strict_some T maxLen (s.length + 1) s [] true hu
+        simp [ho]
+  obtain ⟨v, hv⟩ := this
+  rw [hv, strict_some_eq T maxLen dst s v hv]
+
+/-- valid values are well-formed UTF-8 -/
+theorem valid_utf8_aux (T : Tables) : ∀ (fuel : Nat) (s : List UInt8) (prev : Bool),
+    validL T s prev = true → utf8Ok fuel s = true := by
+  intro fuel
+  induction fuel with
+  | zero => intro s prev _; rfl
+  | succ f ih =>
+    intro s prev hv
+    cases s with
+    | nil => rfl
+    | cons c rest =>
+      rw [validL_cons] at hv
+      simp only [utf8Ok]
+      by_cases h1 : bytePrint c = true
+      · simp only [h1, ↓reduceIte] at hv
+        have hcp : 0x20 ≤ c.toNat ∧ c.toNat ≤ 0x7e := by simpa [bytePrint] using h1
+        have hd := decode_ascii c rest (by omega)
+        have hb : badRune (c.toNat, 1) = false := by
+          have : c.toNat ≠ 65533 := by omega
+          simp [badRune, runeError, this]
+        simp only [hd, hb, Bool.false_eq_true, ↓reduceIte, List.drop_succ_cons, List.drop_zero]
+        split at hv
+        · cases hv
+        · exact ih _ _ hv
+      · simp only [h1, Bool.false_eq_true, ↓reduceIte] at hv
+        by_cases hb : badRune (decodeRune (c :: rest)) = true
+        · simp [hb] at hv
+        · simp only [hb, Bool.false_eq_true, ↓reduceIte] at hv ⊢
+          split at hv
+          · cases hv
+          · split at hv
+            · cases hv
+            · exact ih _ _ hv
 
 end SH.Norm
